@@ -21,7 +21,7 @@ EXPLANATION += (  # round-3 supplement
     " E5's unify_intvars part is decided by evaluating the function's decision code for all four flag combinations (vf/symex.py). E6 success of unify_fields is gated by a relation between both field counts. E7 the covered-variants collection of match_expr is kept duplicate-free. E8 the Never row of unification is directional (known finding)."
 )
 EXPLANATION += (
-    ' E9 record literals: a field name enters the set of names seen so far only behind a negative membership test on that same set (so a repeated field is reported whatever the expected fields are).'
+    ' E9 record literals: a field name enters the set of names seen so far only behind a negative membership test on that same set (so a repeated field is reported whatever the expected fields are). E10 (= C14.D2) a cycle of the reference graph is rejected as soon as one member is a constant.'
 )
 ASSUMPTIONS = [
     "unify / unify_inner themselves (the unification algorithm) are trusted beyond the occurs check decided under C06",
@@ -714,6 +714,18 @@ def rule_e8(F):
     return r
 
 
+def rule_e10(F):
+    """A constant defined in terms of itself is a type error - also when the cycle runs through functions: every member of a
+    multi-item component of the reference graph is examined and ONE constant among them is enough to reject (shared with C14.D2)."""
+    from . import c14
+    r = c14.rule_d2(F)
+    r.rule = "C07.E10"
+    r.desc = "recursive constants are rejected: a cycle of the reference graph is an error as soon as any member is a constant"
+    for v in r.violations:
+        v.rule = "C07.E10"
+    return r
+
+
 def rules(ctx):
     F = ctx["F"]
-    return [rule_e1(F), rule_e2(F), rule_e3(F), rule_e4(F), rule_e5(F), rule_e6(F), rule_e7(F), rule_e8(F), rule_e9(F)]
+    return [rule_e1(F), rule_e2(F), rule_e3(F), rule_e4(F), rule_e5(F), rule_e6(F), rule_e7(F), rule_e8(F), rule_e9(F), rule_e10(F)]
